@@ -335,6 +335,8 @@ def run_breadlog(built, box, config, check=False, cwd=None, rules=None, shim=Fal
         shimlog = box.logpath("shim")
         env["LD_PRELOAD"] = SHIM_SO
         env["VF_SHIM_ROOT"] = box.root
+        if tmpdir and not tmpdir.startswith(box.root + "/"):
+            env["VF_SHIM_ROOT2"] = tmpdir
         env["VF_SHIM_LOG"] = shimlog
         if rules:
             env["VF_SHIM_RULES"] = rules
